@@ -42,7 +42,11 @@ def cmd_run(path):
       'diverged': res.get('diverged', 0),
       'steps': res['steps'],
       'violations': [vi for vi in res['violations'] if vi['sig'] == want][:1],
+      'other': [vi['msg'][-600:] for vi in res['violations'] if vi['sig'] != want][:2],
   }
+  if 'error' in res:
+    from simkit import sched
+    verdict['driver_error'] = sched.format_exc(res['error'])[-1500:]
   print('REPLAY-VERDICT ' + json.dumps(verdict))
   return 0
 
